@@ -28,6 +28,25 @@ pub fn run(r: &mut Rep) {
     if !(ev.len() == 1 && matches!(ev[0], Ev::Lidt(4095, b, _) if b == static_idt as *const _ as u64)) {
         r.viol("C12|load|lidt-operand-is-not-the-table-address-with-limit-4095", "load static", &format!("{:x?}", ev));
     }
+    // histories: every sequence of up to 4 loads over two static tables x {load, load_unsafe}: each call hands the CPU
+    // the table it is called on, whatever was loaded before (repeated loads, loads interleaved with the other table)
+    let tabs: [&'static InterruptDescriptorTable; 2] = [static_idt, Box::leak(Box::new(InterruptDescriptorTable::new()))];
+    for len in 1..=4u32 {
+        for code in 0..4u32.pow(len) {
+            let ops: Vec<u32> = (0..len).map(|i| (code >> (2 * i)) & 3).collect();
+            r.ev(len > 1);
+            for (i, &op) in ops.iter().enumerate() {
+                let t = tabs[(op & 1) as usize];
+                cpu().clear_events();
+                let _ = run_stepped(|| if op & 2 == 0 { t.load() } else { unsafe { t.load_unsafe() } });
+                let ev = cpu().evs();
+                if !(ev.len() == 1 && matches!(ev[0], Ev::Lidt(4095, b, _) if b == t as *const _ as u64)) {
+                    r.viol("C12|load-history|a-load-after-earlier-loads-does-not-execute-one-lidt-of-its-own-table", &format!("load history {:?} step {}", ops, i), &format!("{:x?} expected Lidt(4095, {:#x})", ev, t as *const _ as u64));
+                    break;
+                }
+            }
+        }
+    }
 }
 
 /// set_handler_addr under an emulated code segment: the gate must carry the CS the CPU reports
@@ -106,6 +125,53 @@ pub fn run_gdt(r: &mut Rep) {
     one::<8192>(r, 8190);
     one::<8192>(r, 8191);
     one::<8192>(r, 9000);
+    // histories over two static tables x {load, load_unsafe}, and append;load_unsafe interleavings on one table
+    {
+        let a: &'static GlobalDescriptorTable = Box::leak(Box::new({ let mut g = GlobalDescriptorTable::new(); g.append(Descriptor::kernel_code_segment()); g }));
+        let b: &'static GlobalDescriptorTable = Box::leak(Box::new({ let mut g = GlobalDescriptorTable::new(); g.append(Descriptor::kernel_code_segment()); g.append(Descriptor::SystemSegment(0x0000_8900_0000_0067, 0)); g }));
+        let tabs = [a, b];
+        for len in 1..=4u32 {
+            for code in 0..4u32.pow(len) {
+                let ops: Vec<u32> = (0..len).map(|i| (code >> (2 * i)) & 3).collect();
+                r.ev(len > 1);
+                for (i, &op) in ops.iter().enumerate() {
+                    let t = tabs[(op & 1) as usize];
+                    cpu().clear_events();
+                    let _ = run_stepped(|| if op & 2 == 0 { t.load() } else { unsafe { t.load_unsafe() } });
+                    let ev = cpu().evs();
+                    if !(ev.len() == 1 && matches!(ev[0], Ev::Lgdt(l, bb, _) if l == t.limit() && bb == t.entries().as_ptr() as u64)) {
+                        r.viol("C14|load-history|a-load-after-earlier-loads-does-not-execute-one-lgdt-of-its-own-table", &format!("gdtload history {:?} step {}", ops, i), &format!("{:x?}", ev));
+                        break;
+                    }
+                }
+            }
+        }
+        // 0 = append user descriptor, 1 = append system descriptor, 2 = load_unsafe; all sequences of length <= 5 that fit
+        for len in 1..=5u32 {
+            for code in 0..3u32.pow(len) {
+                let ops: Vec<u32> = (0..len).scan(code, |c, _| { let d = *c % 3; *c /= 3; Some(d) }).collect();
+                let mut g: Box<GlobalDescriptorTable<8>> = Box::new(GlobalDescriptorTable::new());
+                let mut used = 1usize;
+                r.ev(true);
+                for (i, &op) in ops.iter().enumerate() {
+                    match op {
+                        0 => { if used + 1 > 8 { break; } g.append(Descriptor::user_data_segment()); used += 1; }
+                        1 => { if used + 2 > 8 { break; } g.append(Descriptor::SystemSegment(0x0000_8900_0000_0067, 0)); used += 2; }
+                        _ => {
+                            let gr: &GlobalDescriptorTable<8> = &g;
+                            cpu().clear_events();
+                            let _ = run_stepped(|| unsafe { gr.load_unsafe() });
+                            let ev = cpu().evs();
+                            if !(ev.len() == 1 && matches!(ev[0], Ev::Lgdt(l, bb, _) if l as usize == 8 * used - 1 && bb == gr.entries().as_ptr() as u64)) {
+                                r.viol("C14|load-history|load-after-appends-does-not-hand-over-the-current-limit", &format!("gdtload appends {:?} step {}", ops, i), &format!("{:x?} expected limit {:#x}", ev, 8 * used - 1));
+                                break;
+                            }
+                        }
+                    }
+                }
+            }
+        }
+    }
     let s: &'static GlobalDescriptorTable = Box::leak(Box::new({ let mut g = GlobalDescriptorTable::new(); g.append(Descriptor::kernel_data_segment()); g }));
     cpu().clear_events();
     let _ = run_stepped(|| s.load());
